@@ -5,8 +5,11 @@ From HQ Require Import Base.Prelude Gen.Consts Alloc.Model Alloc.Spec Alloc.Lemm
     stated in the annex file HQ.Alloc.PolicyC16, re-exported here: C16_claim_follows_policy,
     C16_scatter_shape, C16_compact_shape, C16_round_robin, C16_tight_shape, C16_min_fraction_direct,
     C16_min_fraction_coupled, C16_admission_iff_feasible_all, C16_admission_all, C16_grant_has_room,
-    C16_unfit_refused, C16_enabled_agrees, C16_strict_admission, C16_optimal_answer_minimal. *)
-From HQ Require Export Alloc.PolicyC16.
+    C16_unfit_refused, C16_enabled_agrees, C16_strict_admission, C16_optimal_answer_minimal; and the
+    group-count theorems for whole grants in HQ.Alloc.PolicyGCC16 (C16_claimed_subset_selected,
+    C16_accepted_ge_min, C16_grant_claimed_within_selected, C16_claimed_eq_selected,
+    C16_grant_group_count_nonstrict, C16_strict_grant_group_count, C16_strict_grant_group_count_optimal). *)
+From HQ Require Export Alloc.PolicyC16 Alloc.PolicyGCC16.
 Open Scope N_scope.
 
 (** The reference [min_groups] is the true minimum number of groups that can hold (units, fraction):
